@@ -1,4 +1,5 @@
 import MdsVerif.Proofs.OmapTree
+import MdsVerif.Drv.C04
 /-!
 # C04 — `omap.Map` is an ordered map: lookups, updates and iterators match a reference
 
@@ -157,6 +158,36 @@ theorem ref_set_new_iff (k : K) (v : V) (l : List (K × V))
       simp [this]
     | eq => simp
     | gt => simp [ih hs.2]
+
+/-! ### the comparators the driver runs are total preorders
+
+Stream `C04` runs `Omap.step (Drv.C04.cmpOf mode)`: the natural order on `int` (`nat`, and any
+unknown mode), its reverse (`rev`), or the order by `a / 10` (`div10`, Go's truncated division:
+equivalent distinct keys).  All satisfy `Std.TransCmp`, so the history theorems apply to the
+comparator the driver executes, whatever the mode string. -/
+section drivercmp
+
+instance cmpOf_trans (mode : String) : Std.TransCmp (MdsVerif.Drv.C04.cmpOf mode) := by
+  unfold MdsVerif.Drv.C04.cmpOf
+  split
+  · exact Std.TransCmp.opposite (cmp := (compare : Int → Int → Ordering))
+  · split
+    · exact { eq_swap := Std.OrientedCmp.eq_swap (cmp := (compare : Int → Int → Ordering)),
+              isLE_trans := Std.TransCmp.isLE_trans (cmp := (compare : Int → Int → Ordering)) }
+    · exact inferInstanceAs (Std.TransCmp (fun a b : Int => compare a b))
+
+/-- **C04 for what the driver executes**, for every mode string, on `NewFunc(cmp)` and on the zero Map -/
+theorem C04_history_drv (mode : String) (ops : List (Omap.Op Int Int)) :
+    Omap.run (MdsVerif.Drv.C04.cmpOf mode) { m := Omap.newFunc } ops =
+      AssocRef.run (MdsVerif.Drv.C04.cmpOf mode) { l := some [] } ops ∧
+    Omap.run (MdsVerif.Drv.C04.cmpOf mode) { m := Omap.zero } ops =
+      AssocRef.run (MdsVerif.Drv.C04.cmpOf mode) { l := none } ops :=
+  ⟨C04_history _ ops, C04_history_zero _ ops⟩
+
+example : MdsVerif.Drv.C04.cmpOf "rev" 1 2 = .gt ∧ MdsVerif.Drv.C04.cmpOf "div10" 12 17 = .eq ∧
+    MdsVerif.Drv.C04.cmpOf "div10" (-3) 7 = .eq ∧ MdsVerif.Drv.C04.cmpOf "nat" 1 2 = .lt := by decide
+
+end drivercmp
 
 /-! ### non-vacuity -/
 
